@@ -719,7 +719,7 @@ QF_ITEM=[[0,2,km,tm,0] for km,tm in KT_ITEM[1:]]+[[2,2,2,3,0],[2,2,0,3,0],[1,2,2
 QF_IF=[[0,2,km,tm,1] for km,tm in KT_IF[1:]]+[[2,2,2,0,1]]
 for name,entry in [("find","VerifC14Find"),("position","VerifC14Position"),("count","VerifC14Count")]:
     if name=="find":
-        q=uniq(base([0],[0,1,2,3],[0,1])+base([1],[2],[0,1])+base([2],[0,1,2],[0,1])+QF_ITEM+QF_IF)
+        q=uniq(base([0],[0,1,2,3],[0,1])+base([1],[2],[0])+base([2],[1,2],[0,1])+QF_ITEM+QF_IF)
     else:
         q=uniq(base([0],[0,1,2],[0,1])+base([0],[3],[0])+base([2],[2],[0,1])+[[0,2,2,3,0],[0,2,6,0,0],[2,2,2,3,0],[0,2,2,0,1],[1,2,0,3,0]])
     t=uniq(base([0,1,2],[0,1,2,3,4],[0,1])+fam([0,1,2],[2,3],[0],[1]))
@@ -754,6 +754,9 @@ q=[[0,m,n,0,0] for (m,n) in [(1,2),(2,2)]]+[[2,1,2,0,0],[0,1,2,2,3]]
 t=[[k,m,n,km,tm] for k in [0,1,2] for (m,n) in MN_T for (km,tm) in SKT if ((km,tm)==(0,0) and (k==0 or m+n<=5)) or (m,n) in [(1,2),(2,2)] or (k==0 and (m,n)==(2,3))]
 spec.append(ob("C14.search","VerifC14Search",q,t,"(search seq1 seq2 :start1 :end1 :start2 :end2 :from-end :key :test): leftmost/rightmost match index; 9 presence shapes of the four bounds; params kind,m,n,keyMode,testMode."))
 spec.append(ob("C14.mismatch","VerifC14Mismatch",q,t,"(mismatch seq1 seq2 :start1 :end1 :start2 :end2 :from-end :key :test): CLHS index relative to sequence-1; params kind,m,n,keyMode,testMode."))
+qa=[[k,3,n,fe,0] for k in [0,1,2] for n in [4,5] for fe in [0,1]]+[[0,3,4,0,1],[0,3,4,1,1],[2,3,5,1,1],[1,4,3,0,1]]
+ta=[[k,m,n,fe,0] for k in [0,1,2] for (m,n) in [(3,4),(3,5),(3,6),(4,5),(4,6)] for fe in [0,1]]+[[k,m,n,fe,1] for k in [0,1,2] for (m,n) in [(3,4),(4,3),(3,5),(4,6)] for fe in [0,1]]
+spec.append(ob("C14.search-alphabet","VerifC14SearchAlpha",qa,ta,"search (fn 0) and mismatch (fn 1) with pattern length m >= 3 in a sequence of length n >= 4 (quick 3x4, 3x5; thorough up to 4x6) whose elements are symbolic but assumed to come from a two value alphabet (0/1, or #\\a/#\\b for strings): every repetition pattern is explored, in particular self-overlapping patterns where the real match overlaps an earlier partial match, e.g. (search '(a a b) '(a a a b)) => 1; no bounds, no :key/:test; params kind,m,n,fromEnd,fn."))
 q=[[0,m,n] for (m,n) in [(0,0),(0,1),(1,1),(2,1),(1,2)]]+[[1,2,1],[2,2,1]]
 t=[[k,m,n] for k in [0,1,2] for (m,n) in MN_T]
 spec.append(ob("C14.replace","VerifC14Replace",q,t,"(replace seq1 seq2 :start1 :end1 :start2 :end2): result (and for lists/vectors the modified argument) equals the reference; params kind,m,n."))
@@ -802,6 +805,9 @@ KF=[("C14-invalid-bounds-accepted","VerifC14Count",[0,1,0,0,0]),
     ("C14-merge-not-stable","VerifC14Merge",[0,1,1,6]),
     ("C14-reduce-empty-and-key","VerifC14Reduce",[0,1,2]),
     ("C14-key-multiple-values","VerifC14Find",[0,1,8,0,0])]
+# the probe cases also run in the main run (region excluded): drop the same case from the regular quick lists
+for o in spec:
+    o["cases"]["quick"]=[c for c in o["cases"]["quick"] if not any(e==o["entry"] and c==k for _,e,k in KF)]
 for kid,entry,case in KF:
     spec.append(ob("C14.known."+kid[4:], entry, [case],[case], "Probe case for the known finding %s: the engine must still find a natively reproducing violation inside the carved region (the same Carve call excludes the region in every other obligation)."%kid, reach=[], carves=[kid]))
 for o in spec:
